@@ -41,8 +41,8 @@ NProgs == Len(Progs)
 
 None == [kind |-> "none", i |-> 0, n |-> 0]
 
-VARIABLES p, toks, m
-vars == << p, toks, m >>
+VARIABLES p, toks, base, m
+vars == << p, toks, base, m >>
 
 ---------------------------------------------------------------------------
 (* the vocabulary of inserted tokens                                        *)
@@ -124,24 +124,26 @@ CharLevel(mu) == mu.kind \in {"delquote", "insbyte", "cut"}
 ---------------------------------------------------------------------------
 Init == /\ p \in 1..NProgs
         /\ toks = TokensOf(Chars(Bytes(p)))
+        /\ base = CertOfTokens(toks)
         /\ m = None
 Next == /\ m = None
         /\ m' \in TokMutations(p, toks) \cup CharMutations(p)
-        /\ UNCHANGED << p, toks >>
+        /\ UNCHANGED << p, toks, base >>
 Spec == Init /\ [][Next]_vars
 
-Report ==
+\* One evaluation per state: the mutant is built and judged, the record is exported, and two laws are checked on it:
+\*   the valid texts are valid as far as the specification can tell (the control has no certificate);
+\*   deleting or inserting one bracket of a text without certificate is always certified.
+Judged ==
   IF CharLevel(m)
   THEN LET j == Judge(ApplyBytes(Bytes(p), m))
-       IN  [id |-> Progs[p].id, kind |-> m.kind, i |-> m.i, n |-> m.n, b |-> j.b, c |-> j.c, r |-> j.r, f |-> j.f]
+       IN  PrintT("MUT " \o ToJson([id |-> Progs[p].id, kind |-> m.kind, i |-> m.i, n |-> m.n,
+                                     b |-> j.b, c |-> j.c, r |-> j.r, f |-> j.f]))
   ELSE LET tl == Apply(toks, m)
-           ct == SetToSeq3(CertOfTokens(tl))
-       IN  [id |-> Progs[p].id, kind |-> m.kind, i |-> m.i, n |-> m.n, u |-> Unscan(tl), c |-> ct, r |-> ct, f |-> <<>>]
-
-Exported == PrintT("MUT " \o ToJson(Report))
-
-\* the valid texts are valid as far as the specification can tell
-ValidHasNoCert == m = None => CertOfTokens(toks) = {}
-\* deleting or inserting one bracket of a text without certificate is always certified
-BracketLaw == (m.kind \in {"delbr", "insbr"} /\ CertOfTokens(toks) = {}) => "brackets" \in CertOfTokens(Apply(toks, m))
+           cs == CertOfTokens(tl)
+           ct == SetToSeq3(cs)
+       IN  /\ PrintT("MUT " \o ToJson([id |-> Progs[p].id, kind |-> m.kind, i |-> m.i, n |-> m.n,
+                                        u |-> Unscan(tl), c |-> ct, r |-> ct, f |-> <<>>]))
+           /\ (m = None => cs = {})
+           /\ ((m.kind \in {"delbr", "insbr"} /\ base = {}) => "brackets" \in cs)
 =============================================================================
